@@ -145,3 +145,21 @@ func verifSignedAssertion(tag string, priv any, kid string) string {
 	}
 	return tok
 }
+
+// verifStorageFullReq additionally implements CanSetUserinfoFromRequest and CanGetPrivateClaimsFromRequest.
+type verifStorageFullReq struct{ *verifStorageFull }
+
+func (s *verifStorageFullReq) SetUserinfoFromRequest(ctx context.Context, u *oidc.UserInfo, r IDTokenRequest, scopes []string) error {
+	if err := s.fault("SetUserinfoFromRequest"); err != nil {
+		return err
+	}
+	u.Subject = r.GetSubject()
+	return nil
+}
+
+func (s *verifStorageFullReq) GetPrivateClaimsFromRequest(ctx context.Context, r TokenRequest, scopes []string) (map[string]any, error) {
+	if err := s.fault("GetPrivateClaimsFromRequest"); err != nil {
+		return nil, err
+	}
+	return map[string]any{"tenant": "t1"}, nil
+}
